@@ -86,7 +86,7 @@ def run(tier, seed, replay_path):
         one_config(tier, seed, ev, rep, 2, "K2", "ScriptsV", 2, max_paths=20)
     else:
         one_config(tier, seed, ev, rep, 1, "K2", "ScriptsQ", 3, max_paths=400)
-        one_config(tier, seed, ev, rep, 2, "K2", "ScriptsV", 3, max_paths=300)
+        one_config(tier, seed, ev, rep, 2, "K2", "ScriptsVK", 3, max_paths=300)
         one_config(tier, seed, ev, rep, 1, "K3", "ScriptsV", 2, max_paths=200)
     ev.set(rule="one case = one (model state, jobmap run) pair executed with real _molli_run subprocesses on real libraries; "
                 "paths chosen by greedy cover of the TLC graph; distinct_nontrivial = distinct pairs exercised")
